@@ -4,6 +4,7 @@ package harness
 // C11 — test cases are isolated.
 
 import (
+	"context"
 	"flag"
 	"fmt"
 	"os"
@@ -226,7 +227,16 @@ func c09Run(t *testing.T, sc Scenario, res *Result) {
 			fl["rapid.seed"] = fmt.Sprint(r.next()%100000 + 1)
 		}
 		calls = 0
-		cr := runBody(body, runOpts{name: name, flags: fl, noExit: true})
+		ro := runOpts{name: name, flags: fl, noExit: true}
+		if sc.Family == "passing" && mix(sc.Seed, 0xc7b)%5 == 0 {
+			// the TB offers a Context that is cancelled already (a Check made from a cleanup function of the enclosing
+			// test, say): that is no reason to run fewer test cases
+			cctx, cancel := context.WithCancel(context.Background())
+			cancel()
+			ro.as = func(tb *recTB) rapid.TB { return ctxTB{tb, cctx} }
+			res.inc("runs_on_a_TB_with_a_cancelled_context")
+		}
+		cr := runBody(body, ro)
 		res.inc("checks_run")
 		res.inc("family:" + sc.Family)
 		completed, skipped, buffers, firstRandom := 0, 0, 0, -1
@@ -533,6 +543,12 @@ func c11Scenarios(cfg runCfg) []Scenario {
 		}
 		i++
 	}
+	for j := 0; j < cfg.n(32, 10); j++ {
+		if cfg.mine(i) {
+			out = append(out, Scenario{Family: "tb-failed-by-others", Seed: mix(cfg.seed, 11, 10, uint64(j)), K: 1 + j%7})
+		}
+		i++
+	}
 	return out
 }
 
@@ -696,6 +712,34 @@ func c11Body(forced map[uint64]string, randomRate int, salt uint64, leaks *int, 
 
 func c11Run(t *testing.T, sc Scenario, res *Result) {
 	defer os.RemoveAll("testdata")
+	if sc.Family == "tb-failed-by-others" {
+		// something else (a watchdog goroutine of the surrounding test, a helper using the outer T) marks the enclosing
+		// test as failed while Check is running; the property itself never signals anything on its *rapid.T: no test
+		// case may be reported as falsifying
+		leaks, stale := 0, 0
+		cr := runBody(c11Body(nil, 0, 0, &leaks, &stale), runOpts{name: "C11ext", flags: map[string]string{"rapid.seed": fmt.Sprint(sc.Seed%1000003 + 1), "rapid.checks": "12", "rapid.nofailfile": "true"},
+			noExit: true, during: func(call int, tb *recTB) {
+				if call == sc.K {
+					tb.Errorf("watchdog of the surrounding test: something unrelated failed")
+				}
+			}})
+		res.inc("checks_run")
+		res.inc("family:tb-failed-by-others")
+		res.nontrivial(fmt.Sprintf("tb-failed-by-others/%d", sc.K))
+		for _, e := range cr.tb.errors() {
+			if strings.HasPrefix(e, "[rapid]") {
+				res.violate(sc, "c11/blamed-for-the-TB", "the enclosing test was failed by something else while Check ran; Check reported a test case of its own as falsifying: "+clip(e, 300), map[string]any{"tb": cr.tb.brief()})
+				return
+			}
+		}
+		for _, inv := range cr.log.Invs {
+			if inv.phase() != "generate" {
+				res.violate(sc, "c11/blamed-for-the-TB", "Check started reproducing/minimising although no test case signalled a failure (phase "+inv.phase()+")", map[string]any{"tb": cr.tb.brief()})
+				return
+			}
+		}
+		return
+	}
 	r := newRng(sc.Seed, 0xc11)
 	seedFlag := fmt.Sprint(sc.Seed%1000003 + 1)
 	verbose := r.chance(1, 2)
